@@ -3,11 +3,17 @@
    exhaustive table run of props/C07.py: class x container form x shape x defect kind x position of the bad item).
    Kind B: lists and finite enumerations, no real numbers -- every theorem here is axiom-free.
 
-   FULL statement of the property (false of the code as it is; kept here, refuted below, proved under a guard):
+   FULL statement of the property:
 
      forall c a d, wf c a = true -> ctor c a = Ok d -> all_valid d.
 
-   i.e. whenever a constructor returns an object, every element of .data is (derived from) a member of the group. *)
+   i.e. whenever a constructor returns an object, every element of .data is (derived from) a member of the group.
+   Before the fixes 8457767 (isR), f16dbda (list path), 21d6c6d (UnitQuaternion N x 4), c16e6a7 (transl2) it was refuted four
+   times.  ONE hole is still open: UnitQuaternion(ndarray 4x4) -- a 4x4 array that fails ishom (reflected or non-orthonormal
+   rotation block, corrupted last row) is not rejected but read as four quaternion rows and normalised.  The elements held
+   are unit quaternions, but the invalid homogeneous matrix was accepted without an exception, so under provenance validity
+   the full statement is still false there: _refuted witness + _partial whose guard excludes exactly that cell; the full
+   statement is proved for every other class and for every list / tuple argument. *)
 From Coq Require Import List Bool Arith Lia.
 Import ListNotations.
 From SM Require Import Model.C07_Ctor.
@@ -24,197 +30,162 @@ Proof. induction n; simpl; constructor; auto. Qed.
 Lemma not_all_valid_none d1 d2 : ~ all_valid (d1 ++ NoneElt :: d2).
 Proof. intros H. apply Forall_app in H. destruct H as [_ H]. inversion H; subst. discriminate. Qed.
 
-(* ------------------------------------------------------------------ the four holes, as refutations of the full statement *)
-Theorem C07_ctor_sound_refuted_reflection : exists c a d, wf c a = true /\ ctor c a = Ok d /\ ~ all_valid d.
+(* ------------------------------------------------------------------ the remaining hole *)
+Theorem C07_ctor_sound_refuted_uq_4x4 : exists a d, wf cUQ a = true /\ ctor cUQ a = Ok d /\ ~ all_valid d /\ length d = 4.
 Proof.
-  exists cSO3, (Bare (Arr (Sq 3) Reflect)), [Elt (Arr (Sq 3) Reflect)]. repeat split.
+  exists (Bare (Arr (Sq 4) BadRow)), (repeat (Conv (Arr (Sq 4) BadRow)) 4). repeat split.
   intros H. inversion H; subst. discriminate.
 Qed.
-Print Assumptions C07_ctor_sound_refuted_reflection.
-Theorem C07_ctor_sound_refuted_list_none : exists c a d, wf c a = true /\ ctor c a = Ok d /\ ~ all_valid d /\ In NoneElt d.
-Proof.
-  exists cSO3, (Seq [Arr (Sq 3) Valid; Arr (Sq 3) NotOrtho]), [Elt (Arr (Sq 3) Valid); NoneElt]. repeat split.
-  - apply (not_all_valid_none [Elt (Arr (Sq 3) Valid)] []).
-  - simpl; auto.
-Qed.
-Print Assumptions C07_ctor_sound_refuted_list_none.
-Theorem C07_ctor_sound_refuted_uq_stack : exists a d, wf cUQ a = true /\ ctor cUQ a = Ok d /\ ~ all_valid d /\ In NormFloat d.
-Proof.
-  exists (Bare (Arr (Rect 2 4) Valid)), [NormFloat; NormFloat]. repeat split.
-  - intros H. inversion H; subst. discriminate.
-  - simpl; auto.
-Qed.
-Print Assumptions C07_ctor_sound_refuted_uq_stack.
-Theorem C07_ctor_sound_refuted_se2_matrix : exists a d, wf cSE2 a = true /\ ctor cSE2 a = Ok d /\ ~ all_valid d /\ In NoneElt d.
-Proof.
-  exists (Bare (Arr (Sq 2) WrongShape)), [NoneElt]. repeat split.
-  - apply (not_all_valid_none [] []).
-  - simpl; auto.
-Qed.
-Print Assumptions C07_ctor_sound_refuted_se2_matrix.
-
-(* ------------------------------------------------------------------ the holes, universally quantified *)
-(* the list / tuple path of the pose classes never raises: every rejected element becomes None, at any position *)
-Theorem C07_ctor_pose_list_never_raises : forall c l, is_pose c = true -> l <> [] -> ctor c (Seq l) = Ok (map (import_pose c) l).
-Proof. intros c l Hc Hl. destruct l; [contradiction|]. unfold ctor. rewrite Hc. reflexivity. Qed.
-Print Assumptions C07_ctor_pose_list_never_raises.
-Theorem C07_ctor_pose_list_none : forall c l it, is_pose c = true -> In it l -> accept c it = false ->
-  exists d, ctor c (Seq l) = Ok d /\ length d = length l /\ In NoneElt d.
-Proof.
-  intros c l it Hc Hin Hacc. exists (map (import_pose c) l). split; [|split].
-  - apply C07_ctor_pose_list_never_raises; auto. intros ->. contradiction.
-  - apply map_length.
-  - apply in_map_iff. exists it. split; auto. unfold import_pose. rewrite Hacc. reflexivity.
-Qed.
-Print Assumptions C07_ctor_pose_list_none.
-Example C07_ctor_pose_list_none_nonvacuous : is_pose cSE3 = true /\ accept cSE3 (Arr (Sq 4) BadRow) = false.
-Proof. split; reflexivity. Qed.
-(* every pose class takes a bare reflection of its native shape *)
-Theorem C07_ctor_reflection_accepted :
-  ctor cSO2 (Bare (Arr (Sq 2) Reflect)) = Ok [Elt (Arr (Sq 2) Reflect)] /\ ctor cSE2 (Bare (Arr (Sq 3) Reflect)) = Ok [Elt (Arr (Sq 3) Reflect)] /\
-  ctor cSO3 (Bare (Arr (Sq 3) Reflect)) = Ok [Elt (Arr (Sq 3) Reflect)] /\ ctor cSE3 (Bare (Arr (Sq 4) Reflect)) = Ok [Elt (Arr (Sq 4) Reflect)] /\
-  ctor cUQ (Bare (Arr (Sq 3) Reflect)) = Ok [Conv (Arr (Sq 3) Reflect)] /\ ctor cUQ (Bare (Arr (Sq 4) Reflect)) = Ok [Conv (Arr (Sq 4) Reflect)].
+Print Assumptions C07_ctor_sound_refuted_uq_4x4.
+(* universally: every 4x4 that ishom rejects is taken as four rows *)
+Theorem C07_ctor_uq_4x4_read_as_rows : forall t, hom_ok t = false ->
+  ctor cUQ (Bare (Arr (Sq 4) t)) = Ok (repeat (Conv (Arr (Sq 4) t)) 4).
+Proof. intros t H. destruct t; try discriminate; reflexivity. Qed.
+Print Assumptions C07_ctor_uq_4x4_read_as_rows.
+Example C07_ctor_uq_4x4_nonvacuous : hom_ok Reflect = false /\ hom_ok NotOrtho = false /\ hom_ok BadRow = false.
 Proof. repeat split. Qed.
-Print Assumptions C07_ctor_reflection_accepted.
-(* UnitQuaternion(ndarray of shape (N,4)) stores N floats, whatever the rows are (N <> 4, or a 4x4 that is not a valid homogeneous matrix) *)
-Theorem C07_ctor_uq_stack_norms : forall r t, r <> 4 -> ctor cUQ (Bare (Arr (Rect r 4) t)) = Ok (repeat NormFloat r).
-Proof. intros r t H. nat7 r; try reflexivity; contradiction. Qed.
-Print Assumptions C07_ctor_uq_stack_norms.
 
-(* ------------------------------------------------------------------ what does hold *)
-(* all outcomes of the bare-ndarray path *)
-Definition se2_hole (s : shape) : bool := match dims s with [2; 1] => false | [2; _] => true | _ => false end.
+(* ------------------------------------------------------------------ all outcomes of the bare-ndarray path *)
 Definition uq_hole (it : item) : bool :=
-  let '(Arr s t) := it in match dims s with [4; 4] => negb (hom_ok t) | [_; 4] => true | _ => false end.
+  let '(Arr s t) := it in match dims s with [4; 4] => negb (hom_ok t) | _ => false end.
 Inductive bare_outcome (c : cls) (it : item) : result (list slot) -> Prop :=
 | bo_acc : accept c it = true -> bare_outcome c it (Ok [stored c it])
 | bo_err : forall e, accept c it = false -> bare_outcome c it (Err e)
 | bo_made : forall n, accept c it = false -> bare_outcome c it (Ok (repeat Made n))
-| bo_none : c = cSE2 -> se2_hole (ish it) = true -> bare_outcome c it (Ok [NoneElt])
 | bo_conv : c = cUQ -> rot_ok (itag it) = true -> bare_outcome c it (Ok [Conv it])
-| bo_norm : forall r, c = cUQ -> uq_hole it = true -> bare_outcome c it (Ok (repeat NormFloat r)).
+| bo_rows : c = cUQ -> uq_hole it = true -> bare_outcome c it (Ok (repeat (Conv it) 4)).
 Lemma bare_outcome_spec : forall c it, bare_outcome c it (ctor c (Bare it)).
 Proof.
   intros c [s t]. unfold ctor. destruct (accept c (Arr s t)) eqn:Ea; [apply bo_acc; exact Ea|].
   destruct c; cbn [is_twist]; try (apply bo_err; exact Ea).
   - (* SO2 *) cbn [fallthrough]. destruct (any_vec s); [apply bo_made | apply bo_err]; exact Ea.
-  - (* SE2 *) shape_cases s; cbn; try (apply bo_err; exact Ea); try (apply (bo_made _ _ 1); exact Ea); try (apply bo_none; reflexivity).
+  - (* SE2 *) shape_cases s; cbn; try (apply bo_err; exact Ea); try (apply (bo_made _ _ 1); exact Ea).
   - (* SE3 *) cbn [fallthrough]. destruct (is_vec s 3); [apply (bo_made _ _ 1); exact Ea|].
     shape_cases s; cbn -[repeat]; try (apply bo_err; exact Ea); try (apply bo_made; exact Ea).
-  - (* UQ *) shape_cases s; cbn -[repeat]; try (apply bo_err; exact Ea); try (apply (bo_norm _ _ _ eq_refl); reflexivity);
-      destruct t; cbn -[repeat]; try (apply bo_err; exact Ea); try (apply bo_conv; reflexivity); try (apply (bo_norm _ _ 4 eq_refl); reflexivity).
+  - (* UQ *) shape_cases s; cbn -[repeat]; try (apply bo_err; exact Ea); try (apply bo_made; exact Ea);
+      destruct t; cbn -[repeat]; try (apply bo_err; exact Ea); try (apply bo_conv; reflexivity); try (apply (bo_rows _ _ eq_refl); reflexivity).
 Qed.
 
-Definition items (a : argform) : list item := match a with Bare it => [it] | Seq l => l end.
-Definition no_reflect (a : argform) : bool := forallb (fun it => negb (tag_eqb (itag it) Reflect)) (items a).
-(* the guard excludes exactly the four holes: reflections (base.isR), the list path of the pose classes, SE2 given a 2 x k
-   matrix, UnitQuaternion given an N x 4 array *)
+(* the guard excludes exactly the open hole: UnitQuaternion given a 4x4 array that fails ishom *)
 Definition guard (c : cls) (a : argform) : bool :=
-  no_reflect a &&
   match a with
-  | Seq _ => negb (is_pose c)
-  | Bare it => match c with cSE2 => negb (se2_hole (ish it)) | cUQ => negb (uq_hole it) | _ => true end
+  | Seq _ => true
+  | Bare it => match c with cUQ => negb (uq_hole it) | _ => true end
   end.
 
-Lemma accept_valid : forall c it, accept c it = true -> applicable c it = true -> tag_eqb (itag it) Reflect = false ->
-  valid_slot (stored c it) = true.
+Lemma accept_valid : forall c it, accept c it = true -> applicable c it = true -> valid_slot (stored c it) = true.
 Proof.
-  intros c [s t] Ha Hp Hr. destruct c; cbn in *.
+  intros c [s t] Ha Hp. destruct c; cbn in *.
   1-5: destruct t; try discriminate; try reflexivity; rewrite ?andb_false_r in Ha; discriminate.
   - unfold stored. cbn [ish]. destruct (is_sq s 3); cbn; destruct (dims_eqb (dims s) [3]); destruct t; cbn in *; try discriminate; reflexivity.
   - unfold stored. cbn [ish]. destruct (is_sq s 4); cbn; destruct (dims_eqb (dims s) [6]); destruct t; cbn in *; try discriminate; reflexivity.
 Qed.
-Lemma all_valid_stored c l : Forall (fun it => accept c it = true /\ applicable c it = true /\ tag_eqb (itag it) Reflect = false) l ->
-  all_valid (map (stored c) l).
-Proof. induction 1 as [|it l [Ha [Hp Hr]] _ IH]; simpl; constructor; auto. apply accept_valid; auto. Qed.
-Lemma forallb_and3 (f g h : item -> bool) l : forallb f l = true -> forallb g l = true -> forallb h l = true ->
-  Forall (fun it => f it = true /\ g it = true /\ h it = true) l.
+Lemma all_valid_stored c l : Forall (fun it => accept c it = true /\ applicable c it = true) l -> all_valid (map (stored c) l).
+Proof. induction 1 as [|it l [Ha Hp] _ IH]; simpl; constructor; auto. apply accept_valid; auto. Qed.
+Lemma forallb_and2 (f g : item -> bool) l : forallb f l = true -> forallb g l = true -> Forall (fun it => f it = true /\ g it = true) l.
 Proof.
   induction l; simpl; intros; constructor.
-  - apply andb_true_iff in H, H0, H1. tauto.
-  - apply andb_true_iff in H, H0, H1. apply IHl; tauto.
+  - apply andb_true_iff in H, H0. tauto.
+  - apply andb_true_iff in H, H0. apply IHl; tauto.
 Qed.
 
-Theorem C07_ctor_sound_partial : forall c a d, wf c a = true -> guard c a = true -> ctor c a = Ok d -> all_valid d.
+(* lists and tuples: the FULL statement, every class, every length, no guard *)
+Theorem C07_ctor_sound_seq : forall c l d, wf c (Seq l) = true -> ctor c (Seq l) = Ok d -> all_valid d.
 Proof.
-  intros c a d Hwf Hg Hc. unfold guard in Hg. apply andb_true_iff in Hg. destruct Hg as [Hr Hg]. destruct a as [it|l].
-  - (* bare *)
-    pose proof (bare_outcome_spec c it) as B. rewrite Hc in B. cbn in Hwf, Hr. rewrite andb_true_r in Hr.
-    apply andb_true_iff in Hwf. destruct Hwf as [_ Hp]. apply negb_true_iff in Hr.
-    inversion B; subst.
-    + constructor; [|constructor]. apply accept_valid; auto.
-    + apply all_valid_repeat_made.
-    + rewrite H1 in Hg. discriminate.
-    + constructor; [|constructor]. cbn. destruct it as [s t]. cbn in *. destruct t; try discriminate; reflexivity.
-    + rewrite H1 in Hg. discriminate.
-  - (* list / tuple: only the classes whose import raises *)
-    apply negb_true_iff in Hg. destruct l as [|h l]; [discriminate|]. unfold ctor in Hc. rewrite Hg in Hc.
-    cbn [wf] in Hwf. apply andb_true_iff in Hwf. destruct Hwf as [_ Hp]. unfold no_reflect in Hr. cbn [items] in Hr.
-    set (L := h :: l) in *. clearbody L.
-    destruct (is_twist c).
-    + destruct (forallb (accept c) L) eqn:Ea; [|discriminate]. injection Hc as <-. apply all_valid_stored.
-      eapply Forall_impl; [|apply (forallb_and3 _ _ _ _ Ea Hp Hr)]. cbn. intros it [? [? ?]]. repeat split; auto. apply negb_true_iff; auto.
-    + destruct (negb (forallb (fun it => is_array (ish it)) L)); [discriminate|].
-      destruct (forallb (accept c) L) eqn:Ea; [|discriminate]. injection Hc as <-. apply all_valid_stored.
-      eapply Forall_impl; [|apply (forallb_and3 _ _ _ _ Ea Hp Hr)]. cbn. intros it [? [? ?]]. repeat split; auto. apply negb_true_iff; auto.
+  intros c l d Hwf Hc. destruct l as [|h l]; [discriminate|]. unfold ctor in Hc.
+  cbn [wf] in Hwf. apply andb_true_iff in Hwf. destruct Hwf as [_ Hp].
+  set (L := h :: l) in *. clearbody L.
+  assert (K : forall e, (if forallb (accept c) L then Ok (map (stored c) L) else Err e) = Ok d -> all_valid d).
+  { intros e. destruct (forallb (accept c) L) eqn:Ea; [|discriminate]. intros H. injection H as <-.
+    apply all_valid_stored. apply forallb_and2; assumption. }
+  destruct (is_twist c); [eapply K; eassumption|]. destruct (is_pose c); [eapply K; eassumption|].
+  destruct (negb (forallb (fun it => is_array (ish it)) L)); [discriminate | eapply K; eassumption].
 Qed.
-Print Assumptions C07_ctor_sound_partial.
-Example C07_ctor_sound_partial_nonvacuous :
-  wf cSE3 (Bare (Arr (Sq 4) Valid)) = true /\ guard cSE3 (Bare (Arr (Sq 4) Valid)) = true /\ (exists d, ctor cSE3 (Bare (Arr (Sq 4) Valid)) = Ok d) /\
-  wf cTw3 (Seq [Arr (Vec 6) Valid; Arr (Sq 4) Valid]) = true /\ guard cTw3 (Seq [Arr (Vec 6) Valid; Arr (Sq 4) Valid]) = true /\
-  (exists d, ctor cTw3 (Seq [Arr (Vec 6) Valid; Arr (Sq 4) Valid]) = Ok d).
+Print Assumptions C07_ctor_sound_seq.
+Example C07_ctor_sound_seq_nonvacuous :
+  wf cSE3 (Seq [Arr (Sq 4) Valid; Arr (Sq 4) Valid]) = true /\ (exists d, ctor cSE3 (Seq [Arr (Sq 4) Valid; Arr (Sq 4) Valid]) = Ok d) /\
+  wf cTw3 (Seq [Arr (Vec 6) Valid; Arr (Sq 4) Valid]) = true /\ (exists d, ctor cTw3 (Seq [Arr (Vec 6) Valid; Arr (Sq 4) Valid]) = Ok d).
 Proof. repeat split; eexists; reflexivity. Qed.
 
-(* the twist classes satisfy the FULL statement: no guard *)
-Theorem C07_ctor_sound_twist : forall c a d, is_twist c = true -> wf c a = true -> ctor c a = Ok d -> all_valid d.
+(* FULL statement for every class but UnitQuaternion; UnitQuaternion under the guard *)
+Theorem C07_ctor_sound_partial : forall c a d, wf c a = true -> guard c a = true -> ctor c a = Ok d -> all_valid d.
 Proof.
-  intros c a d Ht Hwf Hc. apply (C07_ctor_sound_partial c a d Hwf); auto. unfold guard. apply andb_true_iff. split.
-  - (* wf: no tag of a twist argument is Reflect *)
-    assert (Hp : forallb (applicable c) (items a) = true).
-    { destruct a as [it|l]; cbn in *; [apply andb_true_iff in Hwf; destruct Hwf as [_ ->]; reflexivity | apply andb_true_iff in Hwf; tauto]. }
-    unfold no_reflect. revert Hp. generalize (items a). induction l as [|[s t] l IH]; cbn; auto. intros H. apply andb_true_iff in H. destruct H as [H1 H2].
-    rewrite (IH H2), andb_true_r. destruct c; try discriminate; cbn in H1;
-      repeat match type of H1 with context [if ?b then _ else _] => destruct b end; destruct t; cbn in *; try discriminate; reflexivity.
-  - destruct a; destruct c; try discriminate; reflexivity.
+  intros c a d Hwf Hg Hc. destruct a as [it|l]; [|eapply C07_ctor_sound_seq; eassumption].
+  pose proof (bare_outcome_spec c it) as B. rewrite Hc in B. cbn in Hwf. apply andb_true_iff in Hwf. destruct Hwf as [_ Hp].
+  inversion B; subst.
+  - constructor; [|constructor]. apply accept_valid; auto.
+  - apply all_valid_repeat_made.
+  - constructor; [|constructor]. cbn. destruct it as [s t]. cbn in *. destruct t; try discriminate; reflexivity.
+  - cbn in Hg. rewrite H1 in Hg. discriminate.
 Qed.
-Print Assumptions C07_ctor_sound_twist.
-(* UnitQuaternion: lists and tuples of 4-vectors are sound (a rejected element makes base.unit(None) raise) *)
-Theorem C07_ctor_sound_uq_seq : forall l d, ctor cUQ (Seq l) = Ok d -> all_valid d.
+Print Assumptions C07_ctor_sound_partial.
+Theorem C07_ctor_sound : forall c a d, c <> cUQ -> wf c a = true -> ctor c a = Ok d -> all_valid d.
 Proof.
-  intros l d Hc. destruct l as [|h l]; [discriminate|]. unfold ctor in Hc. cbn [is_pose is_twist] in Hc.
-  set (L := h :: l) in *. clearbody L.
-  destruct (negb (forallb (fun it => is_array (ish it)) L)); [discriminate|].
-  destruct (forallb (accept cUQ) L) eqn:Ea; [|discriminate]. injection Hc as <-.
-  rewrite forallb_forall in Ea. apply Forall_forall. intros x Hx. apply in_map_iff in Hx. destruct Hx as [[s t] [<- Hin]].
-  specialize (Ea _ Hin). cbn in Ea. apply andb_true_iff in Ea. destruct Ea as [_ Ea]. destruct t; try discriminate. reflexivity.
+  intros c a d Hc Hwf. apply C07_ctor_sound_partial; [exact Hwf|]. destruct a; [|reflexivity]. destruct c; try reflexivity. contradiction.
 Qed.
-Print Assumptions C07_ctor_sound_uq_seq.
-(* outside the pose classes a rejected element anywhere in a list makes the constructor raise *)
-Theorem C07_ctor_nonpose_list_rejects : forall c l it, is_pose c = false -> In it l -> accept c it = false -> exists e, ctor c (Seq l) = Err e.
+Print Assumptions C07_ctor_sound.
+Example C07_ctor_sound_nonvacuous :
+  wf cSE3 (Bare (Arr (Sq 4) Valid)) = true /\ (exists d, ctor cSE3 (Bare (Arr (Sq 4) Valid)) = Ok d) /\
+  wf cUQ (Bare (Arr (Rect 3 4) AltForm)) = true /\ guard cUQ (Bare (Arr (Rect 3 4) AltForm)) = true /\
+  (exists d, ctor cUQ (Bare (Arr (Rect 3 4) AltForm)) = Ok d).
+Proof. repeat split; eexists; reflexivity. Qed.
+
+(* ------------------------------------------------------------------ rejection, universally *)
+(* a rejected element at any position of any list / tuple makes every constructor raise (fix f16dbda for the pose classes) *)
+Theorem C07_ctor_list_rejects : forall c l it, In it l -> accept c it = false -> exists e, ctor c (Seq l) = Err e.
 Proof.
-  intros c l it Hc Hin Ha. destruct l as [|h l]; [contradiction|]. unfold ctor. rewrite Hc.
+  intros c l it Hin Ha. destruct l as [|h l]; [contradiction|]. unfold ctor.
   assert (E : forallb (accept c) (h :: l) = false).
   { destruct (forallb (accept c) (h :: l)) eqn:E; auto. rewrite forallb_forall in E. rewrite (E _ Hin) in Ha. discriminate. }
-  rewrite E. destruct (is_twist c); [eexists; reflexivity|]. destruct (negb _); eexists; reflexivity.
+  rewrite E. destruct (is_twist c); [eexists; reflexivity|]. destruct (is_pose c); [eexists; reflexivity|]. destruct (negb _); eexists; reflexivity.
 Qed.
-Print Assumptions C07_ctor_nonpose_list_rejects.
-Example C07_ctor_nonpose_list_rejects_nonvacuous : is_pose cTw3 = false /\ accept cTw3 (Arr (Sq 4) NotAlgebra) = false /\ accept cUQ (Arr (Vec 4) NotOrtho) = false.
+Print Assumptions C07_ctor_list_rejects.
+Example C07_ctor_list_rejects_nonvacuous :
+  accept cSO3 (Arr (Sq 3) NotOrtho) = false /\ accept cSO3 (Arr (Sq 3) Reflect) = false /\ accept cSE3 (Arr (Sq 4) BadRow) = false /\
+  accept cSO3 (Arr NonArray WrongShape) = false /\ accept cTw3 (Arr (Sq 4) NotAlgebra) = false /\ accept cUQ (Arr (Vec 4) NotOrtho) = false.
 Proof. repeat split. Qed.
-
-(* bare arrays of the native shape that are not orthonormal / have a bad last row / are not of algebra form ARE rejected *)
-Theorem C07_ctor_bare_rejects :
-  (forall t, In t [NotOrtho] -> exists e, ctor cSO2 (Bare (Arr (Sq 2) t)) = Err e) /\
-  (forall t, In t [NotOrtho] -> exists e, ctor cSO3 (Bare (Arr (Sq 3) t)) = Err e) /\
-  (forall t, In t [NotOrtho; BadRow] -> exists e, ctor cSE2 (Bare (Arr (Sq 3) t)) = Err e) /\
-  (forall t, In t [NotOrtho; BadRow] -> exists e, ctor cSE3 (Bare (Arr (Sq 4) t)) = Err e) /\
-  (exists e, ctor cUQ (Bare (Arr (Vec 4) NotOrtho)) = Err e) /\ (exists e, ctor cUQ (Bare (Arr (Sq 3) NotOrtho)) = Err e) /\
-  (exists e, ctor cTw3 (Bare (Arr (Sq 4) NotAlgebra)) = Err e) /\ (exists e, ctor cTw2 (Bare (Arr (Sq 3) NotAlgebra)) = Err e).
+(* no constructor ever yields a None or a float element *)
+Theorem C07_ctor_no_none : forall c a d, ctor c a = Ok d -> ~ In NoneElt d /\ ~ In NormFloat d.
 Proof.
-  repeat split; try (eexists; reflexivity); intros t Ht; cbn in Ht; repeat destruct Ht as [<-|Ht]; try contradiction; eexists; reflexivity.
+  assert (S : forall c l, ~ In NoneElt (map (stored c) l) /\ ~ In NormFloat (map (stored c) l)).
+  { intros c l. split; intros H; apply in_map_iff in H; destruct H as [x [H _]]; unfold stored in H;
+      destruct c; try discriminate; destruct (is_sq _ _); discriminate. }
+  assert (Rp : forall x n, x <> NoneElt -> x <> NormFloat -> ~ In NoneElt (repeat x n) /\ ~ In NormFloat (repeat x n)).
+  { intros x n H1 H2. split; intros H; apply repeat_spec in H; congruence. }
+  intros c a d Hc. destruct a as [it|l].
+  - pose proof (bare_outcome_spec c it) as B. rewrite Hc in B. inversion B; subst.
+    + apply (S c [it]).
+    + apply Rp; discriminate.
+    + apply (Rp (Conv it) 1); discriminate.
+    + apply (Rp (Conv it) 4); discriminate.
+  - destruct l as [|h l]; [discriminate|]. unfold ctor in Hc. set (L := h :: l) in *. clearbody L.
+    assert (K : forall e, (if forallb (accept c) L then Ok (map (stored c) L) else Err e) = Ok d -> ~ In NoneElt d /\ ~ In NormFloat d).
+    { intros e. destruct (forallb (accept c) L); [|discriminate]. intros H. injection H as <-. apply S. }
+    destruct (is_twist c); [eapply K; eassumption|]. destruct (is_pose c); [eapply K; eassumption|].
+    destruct (negb _); [discriminate | eapply K; eassumption].
+Qed.
+Print Assumptions C07_ctor_no_none.
+(* bare arrays of the native shape that are reflections / not orthonormal / have a bad last row / are not of algebra form are rejected *)
+Theorem C07_ctor_bare_rejects :
+  (forall t, In t [NotOrtho; Reflect] -> exists e, ctor cSO2 (Bare (Arr (Sq 2) t)) = Err e) /\
+  (forall t, In t [NotOrtho; Reflect] -> exists e, ctor cSO3 (Bare (Arr (Sq 3) t)) = Err e) /\
+  (forall t, In t [NotOrtho; Reflect; BadRow] -> exists e, ctor cSE2 (Bare (Arr (Sq 3) t)) = Err e) /\
+  (forall t, In t [NotOrtho; Reflect; BadRow] -> exists e, ctor cSE3 (Bare (Arr (Sq 4) t)) = Err e) /\
+  (exists e, ctor cUQ (Bare (Arr (Vec 4) NotOrtho)) = Err e) /\
+  (forall t, In t [NotOrtho; Reflect] -> exists e, ctor cUQ (Bare (Arr (Sq 3) t)) = Err e) /\
+  (exists e, ctor cTw3 (Bare (Arr (Sq 4) NotAlgebra)) = Err e) /\ (exists e, ctor cTw2 (Bare (Arr (Sq 3) NotAlgebra)) = Err e) /\
+  (forall k, exists e, ctor cSE2 (Bare (Arr (Rect 2 (S (S k))) WrongShape)) = Err e).
+Proof.
+  repeat split; try (eexists; reflexivity); try (intros t Ht; cbn in Ht; repeat destruct Ht as [<-|Ht]; try contradiction; eexists; reflexivity);
+    try (intros k; destruct k as [|[|k]]; eexists; reflexivity).
 Qed.
 Print Assumptions C07_ctor_bare_rejects.
+(* UnitQuaternion(ndarray N x 4), N <> 4: the N normalised rows (fix 21d6c6d; it stored N floats) *)
+Theorem C07_ctor_uq_stack : forall r t, r <> 4 -> ctor cUQ (Bare (Arr (Rect r 4) t)) = Ok (repeat Made r).
+Proof. intros r t H. nat7 r; try reflexivity; contradiction. Qed.
+Print Assumptions C07_ctor_uq_stack.
 
-(* completeness: members are taken, bare or in a list of any length, and stored in order *)
+(* ------------------------------------------------------------------ completeness: members are taken, bare or in a list of any length, in order *)
 Theorem C07_ctor_accepts_members :
   accept cSO2 (Arr (Sq 2) Valid) = true /\ accept cSE2 (Arr (Sq 3) Valid) = true /\ accept cSO3 (Arr (Sq 3) Valid) = true /\
   accept cSE3 (Arr (Sq 4) Valid) = true /\ accept cUQ (Arr (Vec 4) Valid) = true /\ accept cTw3 (Arr (Vec 6) Valid) = true /\
@@ -226,9 +197,7 @@ Theorem C07_ctor_complete : forall c l, l <> [] -> forallb (accept c) l = true -
 Proof.
   intros c l Hl Ha. split.
   - destruct l as [|h l]; [contradiction|]. unfold ctor. rewrite Ha.
-    assert (Hm : map (import_pose c) (h :: l) = map (stored c) (h :: l)).
-    { apply map_ext_in. intros x Hx. rewrite forallb_forall in Ha. unfold import_pose. rewrite (Ha _ Hx). reflexivity. }
-    rewrite Hm. destruct (is_pose c) eqn:Ep; [reflexivity|]. destruct (is_twist c) eqn:Et; [reflexivity|].
+    destruct (is_twist c) eqn:Et; [reflexivity|]. destruct (is_pose c) eqn:Ep; [reflexivity|].
     assert (Hr : forallb (fun it => is_array (ish it)) (h :: l) = true).
     { rewrite forallb_forall in *. intros [s t] Hx. specialize (Ha _ Hx). destruct c; try discriminate. destruct s; cbn in *; try reflexivity. discriminate. }
     rewrite Hr. reflexivity.
